@@ -69,6 +69,14 @@ class Formula(BooleanLogics.Formula):
                         raise TypeError(err_msg(phi))
                     self._subformula.append(phi)
                 else:
+                    if (self.__module__ == __name__ and
+                            isinstance(phi, Formula) and
+                            phi.__module__ != __name__):
+                        # formulas of the logics extending the propositional
+                        # one are subclasses of PL.Formula: they are
+                        # propositional only if they can be cast
+                        phi = Formula.cast_to(phi, Lang)
+
                     if not isinstance(phi, FormulaClass):
                         if (isinstance(phi, Lang.Formula) or
                                 not isinstance(phi, Formula)):
